@@ -115,7 +115,7 @@ fn build_with(env: &Arc<Env>, spec: &BuildSpec, seed: u64, clock: i64) -> Result
 }
 
 /// All timestamps of a package: (what, value)
-fn timestamps(x: &[u8]) -> Vec<(String, u32)> {
+pub fn timestamps(x: &[u8]) -> Vec<(String, u32)> {
     let mut out = vec![];
     let Some((_, sig, hdr, _)) = scan(x) else { return out };
     let get = |h: &vlib::refhdr::RawHeader, tag: u32| h.entries.iter().skip(1).find(|e| e.tag == tag).and_then(|e| value(e, &h.store).ok());
